@@ -4,8 +4,43 @@ from pyvc.contracts import contract
 E = "statham.schema.elements.base:"
 
 # the properties setter: NotPassed is stored as is; anything else is wrapped in a fresh _PropertyDict bound to self
+from pyvc.contracts import contract as _c
 contract(E + "Element.properties@setter",
          requires="is_np(value) or is_dict(value) or isinstance(value, _PropertyDict)",
          returns="implies(is_np(value), self._properties is value) and implies(not is_np(value), isinstance(self._properties, _PropertyDict))",
          modifies=["self", "value"], props=["C08", "C13", "C15"], trusted=True,
          note="binds the passed properties to self (writes their name/source/parent): covered by the bounded reconfiguration histories; _PropertyDict.__init__ iterates a dict subclass under construction (outside the subset)")
+
+V = "statham.schema.validation:"
+ELEM_OK = "isinstance(element, Element) or is_cls(element)"
+
+contract(V + "get_validators", requires="is_obj(element) and elem_wf(element)",
+         returns="is_list(result) and forall(lambda j: isinstance(result[j], Validator), len(result))",
+         result_kind="list", ghost={"result_fresh": True},
+         props=["C01", "C08", "C13", "C14", "C09"])
+
+B = "statham.schema.validation.base:"
+PROPERTY_OK = "is_obj(property_) and not attr_absent(property_, 'name') and not attr_absent(property_, 'parent')"
+
+# the caller's view of any validator call (dynamic dispatch on an unknown validator class): the per-class contracts
+# Validator.__call__[K] (contracts/validators.py, validation_base.py) are what is verified
+contract(B + "Validator.__call__", requires=PROPERTY_OK, raises=[("ValidationError", "vrejects(self, value)")],
+         trusted=True, props=["C01"], note="caller's view under dynamic dispatch; verified per concrete class as Validator.__call__[K]")
+
+INST_CLASSES = ["Element", "String", "Integer", "Number", "Boolean", "Null", "Array", "Not", "AnyOf", "OneOf", "AllOf"]
+TYPES = {"Element": "()", "Not": "()", "AnyOf": "()", "OneOf": "()", "AllOf": "()", "String": "(str,)", "Integer": "(int,)",
+         "Number": "(float, int)", "Boolean": "(bool,)", "Null": "(NoneType,)", "Array": "(list,)"}
+MODS = {"Element": "base", "String": "string", "Integer": "numeric", "Number": "numeric", "Boolean": "boolean", "Null": "null", "Array": "array"}
+for K in ["Element", "String", "Integer", "Number", "Boolean", "Null", "Array"]:
+    contract(f"statham.schema.elements.{MODS[K]}:{K}.type_validator", requires="True",
+             returns=f"type_is(result, InstanceOf) and dict_wf(result.params) and has(result.params,'types') and result.params['types'] is {TYPES[K]}",
+             ghost={"result_fresh": True}, props=["C01", "C08", "C13"])
+
+for K in INST_CLASSES:
+    contract(E + "Element.validators", inst=K, requires="elem_wf(self)",
+             returns="is_list(result) and forall(lambda j: isinstance(result[j], Validator), len(result)) and len(result) >= 1 and type_is(result[0], InstanceOf)",
+             result_kind="list", ghost={"result_fresh": True}, props=["C01", "C08", "C13", "C14", "C17", "C18"])
+
+contract(E + "Nothing.validators", requires="True",
+         returns="is_list(result) and len(result) == 1 and type_is(result[0], NoMatch)", result_kind="list", ghost={"result_fresh": True},
+         props=["C01", "C08"])
